@@ -9,10 +9,9 @@ which the harness reports as a correspondence failure):
   * `Heap.WellFormed`    — children refer to earlier objects (the structure is acyclic).
 
 Proved here for every heap, root and mode: soundness of every reported pair; for the
-un-memoized traversal completeness and no duplicate path; for the memoized traversal at most
-one report per mutable object; the all-paths query is exactly the set of reaching paths.
-Carried by the correspondence check only: "memoized traversal visits every reachable mutable
-object at least once", the identity rebuild (`map_children`) and the cycle error of `iterate`
+un-memoized traversal completeness and no duplicate path; for the memoized traversal exactly
+one report per reachable mutable object; the all-paths query is exactly the set of reaching paths.
+Carried by the correspondence check only: the identity rebuild (`map_children`) and the cycle error of `iterate`
 (cyclic structures are outside well-formed heaps; `build`'s cycle error is in the model).
 -/
 import FiddleModel.Lemmas.Traverse
@@ -46,6 +45,19 @@ theorem C08_basic_exact (h : Heap) (wf : h.WellFormed) (hd : h.PathsDistinct) (r
 theorem C08_memo_at_most_once (h : Heap) (root : GVal) :
     (refIds (iterate h .memo root)).Nodup :=
   (iterGo_memo_once h (h.length + 1) root [] {} ⟨by simp [refIds], by simp [refIds]⟩).1.nodup
+
+/-- ... and every mutable object reachable from the root is reported: exactly once. -/
+theorem C08_memo_complete (h : Heap) (wf : h.WellFormed) (i : Nat) (hi : i < h.length)
+    (j : Nat) (hr : ReachA h i j) : j ∈ refIds (iterate h .memo (.ref i)) := by
+  have hs := iterGo_memo_complete h wf (h.length + 1) (.ref i) [] {} (i + 1)
+    (by simp [GVal.rank]; omega) (by simp [GVal.rank]) (by intro k hk; cases hk)
+  have hy := iterGo_memo_yielded h (h.length + 1) (.ref i) [] {} (by intro k hk; cases hk)
+  exact hy j (hs.full i rfl j hr)
+
+theorem C08_memo_exactly_once (h : Heap) (wf : h.WellFormed) (i : Nat) (hi : i < h.length)
+    (j : Nat) (hr : ReachA h i j) : (refIds (iterate h .memo (.ref i))).count j = 1 := by
+  rw [(C08_memo_at_most_once h (.ref i)).count]
+  simp [C08_memo_complete h wf i hi j hr]
 
 /-- `collect_paths_by_id` / `get_all_paths`: exactly the paths that reach the object. -/
 theorem C08_all_paths_exact (h : Heap) (wf : h.WellFormed) (hd : h.PathsDistinct) (root : GVal)
